@@ -66,6 +66,7 @@ fn biased_len(r: &mut Rng) -> u32 {
         7 => *r.pick(&[65_535u32, 65_536, 70_000, 7611, 8000]),
         8 => 57 + 59,
         9 => 57 + 59 * 2,
+        10 => r.below(7700) as u32,
         _ => r.below(400) as u32,
     }
 }
